@@ -70,6 +70,8 @@ fn probe(p: &CoroutinePool<'static>) {
     rec(json!({"ev": "probe", "running": p.get_running_size(), "pstate": pstate(p)}));
 }
 
+/// task number -> task id, for cancel requests made from inside a task
+static TASK_IDS: std::sync::Mutex<std::collections::BTreeMap<u64, u64>> = std::sync::Mutex::new(std::collections::BTreeMap::new());
 static RACE_TASK: std::sync::atomic::AtomicU64 = std::sync::atomic::AtomicU64::new(0);
 static RACE_STORED: std::sync::atomic::AtomicBool = std::sync::atomic::AtomicBool::new(false);
 /// schedule forcing "deadline in the window": the worker that has stored the result of task HOLD_TASK is held before it
@@ -151,6 +153,15 @@ fn run_scenario(sc: &Value) {
                                         .map(|p| p.submit_task(Some(format!("chain{t}")), |_| Some(7), None, None).is_ok());
                                     rec(json!({"ev": "chain", "task": t, "ok": ok.unwrap_or(false), "none": ok.is_none()}));
                                 }
+                                // the task asks for the cancellation of another task from inside its own run slice
+                                "cancel_task" => {
+                                    let target = st["target"].as_u64().unwrap_or(0);
+                                    let id = TASK_IDS.lock().unwrap().get(&target).copied();
+                                    if let Some(id) = id {
+                                        rec(json!({"ev": "cancel", "task": target, "by": t}));
+                                        CoroutinePool::try_cancel_task(id);
+                                    }
+                                }
                                 "long_delay" => {
                                     SchedulableSuspender::current().expect("task outside a coroutine").delay(Duration::from_millis(40));
                                 }
@@ -168,6 +179,7 @@ fn run_scenario(sc: &Value) {
                 rec(json!({"ev": "submit_e", "task": t, "ok": r.is_ok(), "prio": prio.unwrap_or(0).clamp(-1000, 1000)}));
                 if let Ok(id) = r {
                     ids.insert(t, id);
+                    TASK_IDS.lock().unwrap().insert(t, id);
                 }
             }
             "pass" => {
